@@ -4,8 +4,8 @@ import Driver.Codec
 Line protocol for the Lua dispatch model.
 
 overload set : overloads joined by `|`; one overload = `F:` or `S:` (function / subroutine) followed
-               by its parameters joined by `,`; a parameter = tag letter, `=` appended when it has a
-               default value.  `F:n,n=,b=|S:s`
+               by its parameters joined by `,`; a parameter = tag letter, class id for a class pointer,
+               `=` appended when it has a default value.  `F:n,n=,b=|S:s,u2`
 tag letters  : x none, z nil, b boolean, l lightuserdata, n number, s string, t table, f function,
                u userdata, h thread
 kind         : free | ctor | method | dtor
@@ -23,8 +23,11 @@ def encTag : LType → String
   | .none => "x" | .nil => "z" | .boolean => "b" | .lightuserdata => "l" | .number => "n"
   | .string => "s" | .table => "t" | .function => "f" | .userdata => "u" | .thread => "h"
 
+/-- `<tag letter>[<class id>][=]`: `n`, `b=`, `u2` (pointer to wrapped class 2) -/
 def decParam (s : String) : Param :=
-  ⟨decTag (s.toList.headD 'x'), s.endsWith "="⟩
+  let digits := (s.toList.drop 1).takeWhile Char.isDigit
+  ⟨decTag (s.toList.headD 'x'), s.endsWith "=",
+   if digits.isEmpty then none else some (String.ofList digits).toNat!⟩
 
 def decOverload (s : String) : Overload :=
   match s.splitOn ":" with
@@ -47,7 +50,9 @@ def encNats (l : List Nat) : String := if l.isEmpty then "-" else ",".intercalat
 
 def encEmit (e : Emit) : String :=
   "ov=" ++ toString e.ov ++ "/self=" ++ (match e.selfIdx with | none => "-" | some i => toString i) ++
-  "/pops=" ++ encNats e.pops ++ "/nres=" ++ toString e.nresult
+  "/pops=" ++ encNats e.pops ++ "/nres=" ++ toString e.nresult ++
+  (if e.argCls.all Option.isNone then "" else
+    "/acls=" ++ ",".intercalate (e.argCls.map (fun o => match o with | none => "-" | some c => toString c)))
 
 def encChecks (cs : List (Nat × LType)) : String :=
   if cs.isEmpty then "-" else "&".intercalate (cs.map (fun p => toString p.1 ++ ":" ++ encTag p.2))
